@@ -584,6 +584,13 @@ def run(tier):
     chk.adopt('C02.R8', 'the traversals that enumerate the nodes offered to '
               'the mutators visit every node exactly once (shared with '
               'C12.R5)', sub12)
+    from .. import genreuse
+    chk.guard(genreuse.rule, chk, prog, 'C02.R9',
+              'the proposals of a mutator and the nodes of a sweep are not '
+              'held in a one-shot iterator that is traversed twice on one '
+              'path', {'strategy_hierarchical': None, 'mutator_utils': None},
+              'the sweep that follows sees no nodes / no proposals and '
+              'declares a fixed point')
     extra = None
     if tier == 'thorough':
         from .. import selftest
